@@ -3,7 +3,7 @@
    datagrams below the limit that keeps every span that fits alone, exactly once and in
    order, is accepted. *)
 From Coq Require Import List NArith Bool Arith.
-From FT Require Import Model.Jaeger.
+From FT Require Import Model.Jaeger Model.Thrift.
 Import ListNotations.
 Open Scope N_scope.
 
@@ -55,8 +55,27 @@ Fixpoint seg (service : bytes) (fuel : nat) (rs : list jrecord) (dgs : list byte
 
 (* C19 (Jaeger): every datagram is the Thrift compact emitBatch encoding of a run of the
    batch's records, every record that fits alone is transmitted exactly once, in order *)
+(* read with the Thrift reader (Model/Thrift.v, independent of the encoder): every datagram is a
+   well-formed emitBatch message for this service, and the spans read from all datagrams, in
+   order, are exactly the converted records that fit alone (compared through their
+   encodings, which are injective: Proofs/ThriftProofs.v) *)
+Definition decoded_spans (service : bytes) (dgs : list bytes) : option (list jspan) :=
+  fold_right (fun d acc =>
+                match tr_message d, acc with
+                | Some (svc, sps), Some rest => if bytes_eqb svc service then Some (sps ++ rest) else None
+                | _, _ => None
+                end) (Some []) dgs.
+
+Definition P_C19_jaeger_decoded (service : bytes) (rs : list jrecord) (dgs : list bytes) : bool :=
+  match decoded_spans service dgs with
+  | Some sps =>
+      bytes_eqb (flat_map enc_span sps)
+                (flat_map enc_span (map convert (filter (fun r => negb (oversize service r)) rs)))
+  | None => false
+  end.
+
 Definition P_C19_jaeger (service : bytes) (rs : list jrecord) (dgs : list bytes) : bool :=
-  seg service (S (length dgs)) rs dgs.
+  seg service (S (length dgs)) rs dgs && P_C19_jaeger_decoded service rs dgs.
 
 (* C20: additionally every datagram is smaller than 8000 bytes *)
 Definition P_C20 (service : bytes) (rs : list jrecord) (dgs : list bytes) : bool :=
